@@ -48,7 +48,7 @@ def judge(ln):
         # classification of the candidate
         reason = None
         clear = True
-        if n2(Vh) == 0: clear = False
+        if n2(Vh) == 0 or fnorm(Vh) < 1e-12: clear = False          # a degenerate candidate (no area): its plane is not defined
         else:
             # plane: every vertex within 1e-8 of the polygon's plane and normals parallel => coplanar; any vertex > 1e-5 off => different plane
             ds = [abs(plane_dist(p, outer[0], Vo)) for p in pts]
